@@ -108,8 +108,27 @@ for c in sorted(CLASSES):
         _GROUPS.append([c])
 
 
+# import-time ownership: most setting classes do not define their slot themselves but inherit the (unset) slot of their base
+# class until the first write.  The pristine state must reproduce that - writing every slot onto its class would hide a
+# setting that shares a slot with another one through inheritance (seeded change c17-s6)
+IMPORT_OWN = {s: (s.split("#")[1] in CLASSES[s.split("#")[0]].__dict__) for s in ALL_SLOTS}
+_BASES = [b for b in (S._feature_flag, S._value_context, S._dtype_value_context)]
+IMPORT_BASE_VALUES = {(b, a): getattr(b, a) for b in _BASES for a in ("_state", "_global_value", "_global_float_value", "_global_double_value", "_global_half_value")
+                      if a in b.__dict__}
+
+
 def restore_pristine():
+    for (b, a), v in IMPORT_BASE_VALUES.items():
+        if getattr(b, a) is not v:
+            setattr(b, a, v)
     for s, v in IMPORT_VALUES.items():
+        cname, attr = s.split("#")
+        cls = CLASSES[cname]
+        if not IMPORT_OWN[s]:
+            if attr in cls.__dict__:
+                delattr(cls, attr)
+            if _raw_get(s) is v or _raw_get(s) == v:
+                continue
         _raw_set(s, v)
     S.deterministic_probes.probe_vectors = None
 
@@ -696,13 +715,15 @@ class Gen:
         if cname == "settings.max_cholesky_size":
             return rng.choice([0, 3, 4, 5, 6, 800 + u])
         if kind_of(cname) == "dtype":
+            if rng.random() < 0.12:
+                return 0.0  # falsy but set (c17-s7)
             return round(rng.choice([1e-8, 1e-7, 1e-6, 1e-5, 1e-4, 1e-3]) * (1 + u / 1000.0), 15)
         if isinstance(default, bool):
             return rng.random() < 0.5
         if isinstance(default, int):
-            return default + u
+            return 0 if rng.random() < 0.08 else default + u
         if isinstance(default, float):
-            return round(default * (1 + u / 1000.0), 15)
+            return 0.0 if rng.random() < 0.08 else round(default * (1 + u / 1000.0), 15)
         return u
 
     def ctx_args(self, cname):
